@@ -447,19 +447,21 @@ def clause_f(c: Check):
 
 
 # ---------------------------------------------------------------- g
-LAYER_METHODS = ('resolve', 'value_of_any_dependency', 'primitive', 'validate_pre_sds_if_applicable',
-                 'validate_post_sds_if_applicable', 'structure', 'populate', 'make')
+LAYER_METHODS = ('resolve',)
 SINGLE_USE = {
     'exactly_lib.impls.types.string_transformer.impl.filter.line_nums.sources:_HandlerResolverForMultipleRangesWNegativeValues':
-        'created anew for every application of the transformer (C13-e judges the transformer itself)',
+        'not a symbol-dependent value: created anew for every application of the transformer (C13-e judges the '
+        'transformer itself)',
 }
 
 
 def clause_g(c: Check):
-    """EFF: the value layers (SDV.resolve, DDV.value_of_any_dependency, ADV.primitive, validators, makers) compute
-    their result without changing the object they are called on - the same parsed instruction / symbol value is
-    resolved for every reference and every case of a suite run, so state kept across calls makes a later result
-    depend on an earlier one (mutation summaries, rules/purity.py)"""
+    """EFF: `resolve(symbols)` of every symbol-dependent value computes its result without changing the object it is
+    called on. These objects live as long as the parsed instruction - and the instructions of a suite file are parsed
+    once and used for every case of the suite - so state kept across resolutions makes the value in one case depend
+    on the symbols of an earlier case (mutation summaries, rules/purity.py). A memo that is replaced whenever the
+    freshly computed key differs (`if fresh != self.key: self.key = fresh; ...`) is recognised as keyed by its input.
+    The layers below (DDV, validators, ADV) are created by each resolution and may cache."""
     from .purity import Purity
     ix = c.ix
     pu = Purity(ix)
@@ -480,4 +482,4 @@ def clause_g(c: Check):
                 c.expect(not changed, 'C17-g', 'layer-method-keeps-state/%s.%s' % (k.key, mname),
                          '%s.%s changes %s of the object it is called on: a later resolution / application / case sees what '
                          'an earlier one left behind' % (k.name, mname, ', '.join('self.' + a for a in changed)), f.loc())
-    c.floor('C17-g', 'value-layer methods analysed', n, 250)
+    c.floor('C17-g', 'resolve methods of symbol-dependent values analysed', n, 60)
